@@ -166,6 +166,28 @@ fn odd_shapes(src: &str) -> Vec<&'static str> {
             Node::Tuple { elements, parentheses: false } if elements.iter().any(|e| bare_call(*e)) => {
                 out.push("bare-tuple-of-bare-call")
             }
+            // `x = while c ...` followed by a dedented `< 5`: a block expression as the left operand of an operator
+            Node::BinaryOp { lhs, .. }
+                if matches!(
+                    ast.node(*lhs).node,
+                    Node::While { .. }
+                        | Node::Until { .. }
+                        | Node::Loop { .. }
+                        | Node::For(_)
+                        | Node::Match { .. }
+                        | Node::Switch(_)
+                        | Node::Try(_)
+                        | Node::If(_)
+                ) =>
+            {
+                out.push("block-operand")
+            }
+            // `f key: value` + indented entries: a map in block form as the argument of a call without parentheses
+            Node::Chain((ChainNode::Call { args, with_parens: false }, _))
+                if args.iter().any(|a| matches!(ast.node(*a).node, Node::Map { braces: false, .. })) =>
+            {
+                out.push("bare-call-with-block-map")
+            }
             _ => {}
         }
     }
